@@ -322,8 +322,10 @@ def run_case(case, ctx):
                 _, raw2 = read_cache_file(path)
                 if r2 is not None or raw2 != raw:
                     oracle.append("%s: an immediate second update_cache returned %r / rewrote the file" % (where, r2))
-            # three views
-            views = {"live": project}
+            # three views.  Right after a session restart the live session is NOT looked at (and the model gets no
+            # `observe`): the next operation - e.g. update_cache() - is then the first cache lookup of the session
+            quiet = (k == "session")
+            views = {} if quiet else {"live": project}
             try:
                 views["fresh+cache"] = signac.Project(path)
             except Exception as e:  # noqa: BLE001
@@ -366,8 +368,9 @@ def run_case(case, ctx):
                 mops.append(k)
             # NOTE: the views above go through the live session and register state points in its cache; the
             # model is told so (the `observe` pseudo-op) to keep its session cache in step
-            mops.append("observe")
-            itoks.append("obs")
+            if not quiet:
+                mops.append("observe")
+                itoks.append("obs")
             if oracle:
                 break
     finally:
